@@ -6,7 +6,7 @@ PIN = [("ruint::algorithms::div::div_nx1", "stubs::pinned_div_nx1"),
        ("ruint::algorithms::div::div_nxm", "stubs::pinned_div_nxm")]
 
 
-MULTI_OK = set()   # filled in from measured probes
+MULTI_OK = {"128_2x1"}   # measured: 2106 s; 3x1/4x3 kernels did not finish in 3000 s   # filled in from measured probes
 
 
 def pin_except(keep):
@@ -55,7 +55,7 @@ def harnesses():
     for (name, b, ndl, nq, dc, keep, tier) in shapes:
         l = nlimbs(b)
         out.append(H("c03_multi_%s" % name, "C03", "c03::multi::<%d,%d,%d,%d,%d>" % (b, l, ndl, nq, dc),
-                     unwind=l + 4, tier=tier, timeout=3600, inst="Uint<%d,%d>, divisor %d limbs (codes %x)" % (b, l, ndl, dc),
+                     unwind=l + 4, tier=tier, timeout=7200, inst="Uint<%d,%d>, divisor %d limbs (codes %x)" % (b, l, ndl, dc),
                      stubs=pin_except(keep), role="c03::multi." + keep,
                      domain="LATTICE: divisor limbs by code, %d pattern quotient limb(s), remainder small or d-1-small; "
                             "n = q*d + r built exactly; only %s expected, other kernels pinned unreachable" % (nq, keep),
